@@ -62,7 +62,13 @@ def scan_sources():
 def proof_obligations(pid):
     """build the library, then compile Props/<pid>.v on its own and read Print Assumptions.
     returns dict(ok, theorems=[(name, closed, text)], log)"""
-    ok, log = coqrun.build()
+    # build what this property needs: every model file (the generated case files import them) and this property's
+    # statement file with everything it depends on; a broken proof of ANOTHER property does not concern this check
+    import glob
+    models = []
+    for lst in sorted(glob.glob(os.path.join(COQ, "files.d", "*.txt"))):
+        models += [l.strip() + "o" for l in open(lst) if l.strip().startswith("Model/")]
+    ok, log = coqrun.build(targets=sorted(set(models)) + ["Props/%s.vo" % pid])
     res = dict(ok=ok, theorems=[], log=log[-4000:] if not ok else "", problems=[])
     src_path = os.path.join(COQ, "Props", pid + ".v")
     if not os.path.exists(src_path):
